@@ -84,6 +84,16 @@ func (w *World) MnemonicOf(i int) string {
 
 func passwordOf(i int) []byte { return []byte(fmt.Sprintf("operator-password-%d", i)) }
 
+// CaseTwinNames returns n participant names of which the first two differ only in letter case (user names are free text
+// and compared exactly: "Ann Operator" and "ann operator" are two participants).
+func CaseTwinNames(n int) []string {
+	names := []string{"Ann Operator", "ann operator"}
+	for i := 2; i < n; i++ {
+		names = append(names, fmt.Sprintf("%c node_%d", 'z'-rune(i), i))
+	}
+	return names[:n]
+}
+
 // New creates a fresh world: empty board, n nodes (polling started) and n machines restored from their mnemonics.
 func New(cfg Config) (*World, error) {
 	w := &World{N: cfg.N, Root: cfg.Root, Seed: cfg.Seed, Board: NewBoard(), Mnemonics: cfg.Mnemonics, HotSalt: cfg.HotSalt, PasswordSuffix: cfg.PasswordSuffix}
